@@ -31,7 +31,9 @@
 (*           produced blocks NOW; the wall clock is far beyond every p,    *)
 (*           so the pool never admits such a transaction)                  *)
 (*   txh     TxHeight p: valid iff p-LO <= r <= p+HI; duplicates are       *)
-(*           looked up in the cache of the last LO+HI blocks only          *)
+(*           looked up in the cache of the last LO+HI blocks only; the     *)
+(*           pool admits it only when it is valid at the current height    *)
+(*           too (the executor's pre-check), i.e. not before its window    *)
 (*   lowfee / chainid   statically invalid                                 *)
 (* An instance <<t, v>> is the transaction with genuine signature (v="g")  *)
 (* or with corrupted signature bytes (v="b": same hash, the "twin").       *)
@@ -131,7 +133,8 @@ Init == /\ prof \in Profiles
 SubmitOK(x) ==
   LET t == x[1]
   IN /\ x[2] = "g" /\ Static(t) /\ K(t) # "time"
-     /\ ~Expired(t, Len(best) + 1, TipBt(best))
+     /\ ~Expired(t, Len(best) + 1, TipBt(best))  \* the pool's own check: the next height
+     /\ ~Expired(t, Len(best), TipBt(best))      \* the executor's check (EventCheckTx): the current height
      /\ ~Seen(t, best)
      /\ t \notin SetIds(pool)
 SubmitRet(x) == IF SubmitOK(x) THEN "ok" ELSE "rej"
